@@ -249,3 +249,32 @@ pub fn replay(op: &str, args: &[u64]) -> Result<(), Viol> {
     }
     Ok(())
 }
+
+/// tooling: complete 2^32 scan of one unary function, listing every excess (used to build the
+/// exhaustive witness list of a known accuracy finding)
+pub fn scan(name: &str) -> i32 {
+    use rayon::prelude::*;
+    let fi = match UNARY.iter().position(|f| f.name == name) {
+        Some(i) => i,
+        None => return 2,
+    };
+    let mut all: Vec<(u64, String)> = (0u64..4096)
+        .into_par_iter()
+        .flat_map(|c| {
+            let mut l = Local::new(false);
+            let mut out = vec![];
+            for a in (c << 20)..((c + 1) << 20) {
+                if let Err(v) = unary(fi, a, &mut l) {
+                    out.push((a, v.got));
+                }
+            }
+            out
+        })
+        .collect();
+    all.sort();
+    for (a, g) in &all {
+        println!("{:#010x} {}", a, g);
+    }
+    println!("# {} inputs of {} exceed the bound", all.len(), name);
+    0
+}
